@@ -234,9 +234,11 @@ class World:
             if room <= 0:
                 srcs = sorted({x["src"] for x in self.transit if x["dst"] == exit_to} |
                               {s for s, k in self.kick.items() if k is not None and k[2] == exit_to})
+                detail = [[x["src"], x["dst"], x["kind"], x.get("left_at")] for x in self.transit if x["dst"] == exit_to] + \
+                    [[s_, k[2], k[3], None] for s_, k in self.kick.items() if k is not None and k[2] == exit_to]
                 self.fired_full.append({"t": round(self.now() / GRID), "source": d, "target": exit_to,
                                         "occupancy": self.occupancy(exit_to), "heading": self.heading_to(exit_to),
-                                        "heading_from": srcs})
+                                        "heading_from": srcs, "heading_detail": detail})
         lst = self.outcomes.get(d) or []
         outcome = lst.pop(0) if lst else "ok"
         self.history[-1].append(outcome)
@@ -252,7 +254,7 @@ class World:
         slot, ball, dst, outcome = self.kick[d]
         self.kick[d] = None
         self.slots[d][slot] = None
-        tr = {"ball": ball, "src": d, "dst": dst, "kind": outcome}
+        tr = {"ball": ball, "src": d, "dst": dst, "kind": outcome, "left_at": round(self.now() / GRID)}
         self.transit.append(tr)
         if outcome == "fallback" and self.topo[d]["exit"] == "pf":
             # until the source's confirm window (eject_timeout) is over MPF takes any playfield switch hit (by another
@@ -266,6 +268,8 @@ class World:
             dt = self.timing["fallback"]
         elif outcome == "late":
             dt = self.p["eject_to"] / 1000.0 + self.timing["late"]
+        elif outcome == "verylate":     # only in the directed witness: arrives after MPF has declared the ball lost
+            dt = (self.p["eject_to"] + self.p["missing_to"]) / 1000.0 + self.timing["late"]
         else:           # astray: the ball jumps the lane and ends up loose on the playfield
             dt = self.timing["transit"]
         self.at(dt, self._arrive, tr)
@@ -301,7 +305,11 @@ class World:
         """a playfield switch can only be hit by a loose ball; and while a ball that was ejected towards the playfield
         is falling back into its device, a hit by *another* ball is indistinguishable from the confirmation of that
         eject (MPF would confirm it and let the next ball be fired at the still-returning one): not generated"""
-        if not self.loose or self.now() < self.no_pf_hit_until:
+        if not self.loose:
+            return False
+        if self.timing.get("ambiguous"):
+            return True                 # directed witness histories only
+        if self.now() < self.no_pf_hit_until:
             return False
         for x in self.transit:
             if x["kind"] == "fallback" and self.topo[x["src"]]["exit"] == "pf":
@@ -318,7 +326,7 @@ class World:
             return False
         if self.occupancy(dst) + self.heading_to(dst) >= len(self.slots[dst]):
             return False
-        if self.kick[dst] is not None or any(x["src"] == dst for x in self.transit):
+        if not self.timing.get("ambiguous") and (self.kick[dst] is not None or any(x["src"] == dst for x in self.transit)):
             # a ball entering a device while that device's own ejected ball is still under way is physically
             # indistinguishable (switch-counted device without entrance switch) from the ejected ball coming back:
             # MPF then retries while the first ball may still arrive (reported as a finding, not generated here)
@@ -381,6 +389,7 @@ class Run:
         self.obs = []           # observation log: [tick, kind, ...]
         self.finishing = {}     # device -> eject finished (end_eject done) but BallDevice._state not yet back to idle
         self.transient_negative = 0
+        self.last_negative = None
         self.claim_lock = 0     # number of balls the (harness-side) lock logic will claim on entry
         self.crash = None
 
@@ -507,6 +516,7 @@ class Run:
                 # ledger treats "eject finished" as one transition, so the observation is normalised here
                 if balls < 0:
                     self.transient_negative += 1
+                    self.last_negative = {"device": d, "balls": balls, "counted_balls": dev.counted_balls, "state": state}
                 balls, state = dev.counted_balls, "idle"
                 pending -= 1
             s[d] = {"balls": balls, "counted": dev.counted_balls, "avail": dev.available_balls, "state": state,
@@ -682,6 +692,9 @@ def _run_case(case, run, res, model):
     def sample():
         res.steps += 1
         s = run.snap()
+        if case.get("report_transient") and run.transient_negative:
+            res.fail("count-negative:balls-property-after-eject-success",
+                     {"raw": run.last_negative, "tick": round(run.vm.now() / GRID), "obs": run.obs[-8:], "world": world.history[-6:]})
         # oracle, every sample: no count negative or above capacity
         for d in DEVS:
             x = s[d]
@@ -689,9 +702,9 @@ def _run_case(case, run, res, model):
                 res.fail("count-out-of-bounds:" + d, {"device": d, "snap": x, "tick": round(run.vm.now() / GRID),
                                                       "obs": run.obs[-10:], "world": world.history[-10:]})
         for ff in world.fired_full:
-            two = len(set(ff["heading_from"]) - {ff["source"]}) > 0 and p["topo"] == "two_src"
-            res.fail("fired-into-full-device" + (":two-sources" if two else ""),
-                     dict(ff, obs=run.obs[-14:], world=world.history[-10:]))
+            if "sig" not in ff:         # classified once, from the history up to the event
+                ff["sig"] = classify_fired_full(ff, p, run.obs, world.history)
+            res.fail(ff["sig"], dict(ff, obs=run.obs[-14:], world=world.history[-10:]))
         if world.fired_full:
             monitor_on[0] = False      # the consequences of a double fire are outside the ledger
             return
@@ -902,6 +915,30 @@ def _run_case(case, run, res, model):
     for o in run.obs:
         if o[1] in ("lost_ejected", "lost_idle", "broken", "found_new_ball", "queue_req", "captured"):
             res.count("mpf_" + o[1])
+
+
+def classify_fired_full(ff, p, obs, history):
+    """signature of a "fired into a full device" event: which class of history led to it"""
+    src, tgt = ff["source"], ff["target"]
+    det = ff.get("heading_detail", [])
+    if any(a == tgt and b == tgt and k == "fallback" for a, b, k, _ in det):
+        # the target's own ball (ejected towards the playfield) is falling back while the next ball is fired at it:
+        # MPF had confirmed that eject - by a playfield switch hit of *another* ball, or by the timeout
+        last = None
+        for i, o in enumerate(obs):
+            if o[1] == "ball_eject_success" and o[2] == tgt:
+                last = i
+        by_pf = last is not None and last > 0 and obs[last - 1][1] == "pf_arrived" and obs[last - 1][0] == obs[last][0]
+        return "misattributed:playfield-hit-after-return" if by_pf else "fired-into-full-device:fallback-after-eject-timeout"
+    if any(k == "verylate" for _, _, k, _ in det):
+        return "fired-into-full-device:arrival-after-ball-missing-timeout"
+    own = [x for x in det if x[0] == src and x[2] in ("late", "ok")]
+    if own and any(h[1] == "entered" and h[2] == src and h[4] == "pf" and h[0] >= (own[0][3] or 0) - 4 for h in history):
+        # the source retried because a ball that entered it during its own eject was taken for the ejected ball returning
+        return "misattributed:entry-during-own-eject"
+    if p["topo"] == "two_src" and set(ff["heading_from"]) - {src}:
+        return "fired-into-full-device:two-sources"
+    return "fired-into-full-device"
 
 
 def _blocked_by_broken(s, d, broken, p):
